@@ -24,6 +24,10 @@ fn judge(steps: &[Step], stats: &mut Stats) -> Vec<(String, String, String)> {
     }
     let mut ledger = IdLedger::default();
     let mut thread_no = 0usize;
+    // identifiers embed the process id: only the shape of the outputs is a function of the seed
+    for r in &h.results {
+        stats.fold_str(&match &r.res { Res::Ok(css) => format!("ok {}", vcommon::ids::decls(css).len()), o => o.short() });
+    }
     for (k, r) in h.results.iter().enumerate() {
         if steps[k].thread {
             thread_no += 1;
